@@ -238,6 +238,12 @@ def _first_effect_call(f: FuncInfo) -> Optional[ast.Call]:
             return st.value
         if isinstance(st, ast.If) and all(isinstance(x, ast.Raise) for x in st.body) and not st.orelse:
             continue  # raising guard
+        if isinstance(st, (ast.Assign, ast.AnnAssign)) and all(
+                isinstance(t, ast.Name) or isinstance(t, ast.Tuple) and all(isinstance(e, ast.Name) for e in t.elts)
+                for t in (st.targets if isinstance(st, ast.Assign) else [st.target])):
+            continue  # binding of a local: no effect on the simulator
+        if isinstance(st, (ast.Pass, ast.Assert)) or isinstance(st, ast.Expr) and isinstance(st.value, ast.Constant):
+            continue
         return None
     return None
 
@@ -413,40 +419,49 @@ def _sub_root(e):
 
 
 def _expandxy_clears(f: FuncInfo):
-    """returned noise matrix is stored to on diagonal positions i and i + nlen, for i over all nlen,
-    under the guard `i not in modes`"""
-    rets = [n for n in walk_no_nested(f.node) if isinstance(n, ast.Return) and n.value is not None]
+    """the returned noise matrix is stored to with 0 on the diagonal positions i and i + nlen, for i over all nlen,
+    on paths where `i in modes` is false"""
+    from ..dataflow import return_values, expand_locals
+    from .common_guard import path_facts
+    rets = return_values(f.node)
     if not rets:
         return False, "expandXY returns nothing"
     mparam = f.pos_params[1]
-    for r in rets:
-        v = r.value
+    cfg = cfg_of(f.node)
+    for _, v in rets:
         if not (isinstance(v, ast.Tuple) and len(v.elts) == 2 and isinstance(v.elts[1], ast.Name)):
             return False, "return value is not a pair (X, Y) of names"
         y = v.elts[1].id
         found = {0: False, 1: False}
         for loop in [n for n in walk_no_nested(f.node) if isinstance(n, ast.For)]:
-            it = loop.iter
+            it = expand_locals(f.node, loop.iter)
             if not (isinstance(it, ast.Call) and dotted(it.func) == "range" and len(it.args) == 1
                     and dotted(it.args[0]) == "self.nlen" and isinstance(loop.target, ast.Name)):
                 continue
             i = loop.target.id
-            for st in ast.walk(loop):
-                if isinstance(st, ast.If):
-                    t = st.test
-                    if isinstance(t, ast.Compare) and len(t.ops) == 1 and isinstance(t.ops[0], ast.NotIn) \
-                            and isinstance(t.left, ast.Name) and t.left.id == i \
-                            and isinstance(t.comparators[0], ast.Name) and t.comparators[0].id == mparam:
-                        for a in st.body:
-                            if isinstance(a, ast.Assign) and _is_zero(a.value):
-                                for tg in a.targets:
-                                    if isinstance(tg, ast.Subscript) and dotted(tg.value) == y and \
-                                            isinstance(tg.slice, ast.Tuple) and len(tg.slice.elts) == 2:
-                                        e0, e1 = (ast.unparse(x) for x in tg.slice.elts)
-                                        if e0 == e1 == i:
-                                            found[0] = True
-                                        if e0 == e1 and e0.replace(" ", "") in (f"{i}+self.nlen", f"self.nlen+{i}"):
-                                            found[1] = True
+            for a in ast.walk(loop):
+                if not (isinstance(a, ast.Assign) and _is_zero(a.value)):
+                    continue
+                ids = cfg.node_of_expr(a)
+                if not ids:
+                    continue
+                off = any(not truth and isinstance(t, ast.Compare) and isinstance(t.ops[0], ast.In)
+                          and dotted(t.left) == i and dotted(t.comparators[0]) == mparam
+                          for t, truth in path_facts(cfg, ids[0]))
+                if not off:
+                    continue
+                for tg in a.targets:
+                    if isinstance(tg, ast.Subscript) and dotted(tg.value) == y:
+                        sl = tg.slice.elts if isinstance(tg.slice, ast.Tuple) else None
+                        if sl is None and isinstance(tg.value, ast.Subscript):
+                            continue
+                        if sl is None or len(sl) != 2:
+                            continue
+                        e0, e1 = (ast.unparse(expand_locals(f.node, x)).replace(" ", "") for x in sl)
+                        if e0 == e1 == i:
+                            found[0] = True
+                        if e0 == e1 and e0 in (f"{i}+self.nlen", f"self.nlen+{i}"):
+                            found[1] = True
         if not (found[0] and found[1]):
             return False, ("the noise matrix returned by expandXY is not cleared on the diagonal positions i and "
                            "i + nlen of every mode outside `modes`: symp.expand pads with the identity, so every "
